@@ -89,3 +89,83 @@ pharness!(c15_num_messages_settled, |s| {
     vcover!(s, n > 1, "range of several deliveries");
     let _ = n;
 });
+
+// ---- C06 (iii): transfer splitting by the real FrameEncoder at a small frame size ----
+use fe2o3_amqp_types::definitions::Handle;
+use fe2o3_amqp_types::performatives::Transfer;
+
+macro_rules! transfer_split {
+    ($name:ident, $plen:expr) => {
+        // @tier thorough
+        // @timeout 2400
+        // @mem 40
+        // @unwind 8
+        // @bound FrameEncoder::new(48) (frame body 44 bytes), channel and payload content symbolic, payload length concrete; transfer with handle, delivery-id, 1-byte tag, message-format
+        // @desc every emitted frame starts with a frame header, is at most the frame size, all but the last are exactly the frame size and carry more=true, only the first carries delivery-id/tag/format, the payload chunks concatenate to the payload
+        pharness!($name, |s| {
+            let channel = s.u16();
+            let payload: [u8; $plen] = s.bytes::<$plen>();
+            let t = Transfer {
+                handle: Handle(1),
+                delivery_id: Some(7),
+                delivery_tag: Some(serde_bytes::ByteBuf::from(vec![0x2a])),
+                message_format: Some(0),
+                settled: None,
+                more: false,
+                rcv_settle_mode: None,
+                state: None,
+                resume: false,
+                aborted: false,
+                batchable: false,
+            };
+            let mut enc = frame_encoder(48);
+            let mut dst = BytesMut::new();
+            let r = enc.encode(amqp::Frame { channel, body: amqp::FrameBody::Transfer { performative: t, payload: bytes::Bytes::copy_from_slice(&payload) } }, &mut dst);
+            assert!(r.is_ok(), "[C06] encoding a transfer failed");
+            // walk the emitted bytes frame by frame: every frame is 48 bytes except the last
+            let total = dst.len();
+            let mut off = 0usize;
+            let mut frames = 0usize;
+            let mut got = 0usize;
+            let mut decoded = [0u8; $plen];
+            while off < total && frames < 6 {
+                let end = if total - off > 48 { off + 48 } else { total };
+                assert!(dst[off] == 2 && dst[off + 1] == 0 && dst[off + 2] == channel.to_be_bytes()[0] && dst[off + 3] == channel.to_be_bytes()[1], "[C06] chunk does not start with a frame header");
+                let mut src = BytesMut::from(&dst[off..end]);
+                let f = (amqp::FrameDecoder {}).decode(&mut src);
+                match f {
+                    Ok(Some(amqp::Frame { body: amqp::FrameBody::Transfer { performative, payload: p }, .. })) => {
+                        let last = end == total;
+                        assert!(performative.more == !last, "[C06] more flag wrong");
+                        if frames == 0 {
+                            assert!(performative.delivery_id == Some(7), "[C06] first frame lost the delivery-id");
+                        } else {
+                            assert!(performative.delivery_id.is_none() && performative.delivery_tag.is_none() && performative.message_format.is_none(), "[C06] continuation frame repeats first-frame fields");
+                        }
+                        let mut i = 0;
+                        while i < p.len() && got < $plen {
+                            decoded[got] = p[i];
+                            got += 1;
+                            i += 1;
+                        }
+                        std::mem::forget(performative);
+                        std::mem::forget(p);
+                    }
+                    _ => assert!(false, "[C06] emitted chunk does not decode as a transfer frame"),
+                }
+                std::mem::forget(src);
+                off = end;
+                frames += 1;
+            }
+            assert!(got == $plen, "[C06] payload bytes lost or duplicated across frames");
+            let mut i = 0;
+            while i < $plen {
+                assert!(decoded[i] == payload[i], "[C06] payload changed by splitting");
+                i += 1;
+            }
+            vcover!(s, frames >= 2, "multi-frame");
+            std::mem::forget(dst);
+        });
+    };
+}
+transfer_split!(c06_transfer_split_len40, 40);
